@@ -3,10 +3,12 @@ package schedsim
 import (
 	"context"
 	"encoding/json"
+	"errors"
 	"fmt"
 	"math/big"
 	mrand "math/rand"
 	"os"
+	"strings"
 	"testing"
 	"testing/synctest"
 	"time"
@@ -36,10 +38,18 @@ type LogQuery struct {
 	Topics   [][]int `json:"topics"` // per position: alternatives (topic seeds; negative = absent value); empty = wildcard
 	Schedule []int   `json:"schedule"`
 	CancelAt int     `json:"cancel_at"` // cancel the context after this many releases (-1 never)
+	// FailAt > 0: the FailAt-th bit-vector retrieval served during this query fails
+	FailAt int `json:"fail_at,omitempty"`
+	// ViaJSON: the criteria travel as the JSON object of the RPC API and are decoded by
+	// FilterCriteria.UnmarshalJSON; NullAt[i] >= 0 puts a JSON null at that index of
+	// position i's alternatives (a null anywhere in the list makes the position a wildcard)
+	ViaJSON bool  `json:"via_json,omitempty"`
+	NullAt  []int `json:"null_at,omitempty"`
 }
 
 type LogOp struct {
-	Kind   string    `json:"op"` // insert | index (let the indexer run) | query
+	Kind   string    `json:"op"` // insert | index (let the indexer run) | index-partial (N headers) | query
+	N      int       `json:"n,omitempty"`
 	Blocks []int     `json:"blocks,omitempty"`
 	Ms     int64     `json:"ms,omitempty"`
 	Query  *LogQuery `json:"query,omitempty"`
@@ -51,6 +61,10 @@ type LogPlan struct {
 	Confirms uint64          `json:"confirms"`
 	Servers  int             `json:"servers"`
 	Ops      []LogOp         `json:"ops"`
+	// StepIndexer: the indexer's section processing is adopted at its per-header yield
+	// point; "index-partial" ops let it process only N headers before the next operation
+	// (a reorganisation can then land inside the section being processed)
+	StepIndexer bool `json:"step_indexer,omitempty"`
 }
 
 func DecodeLogPlan(raw json.RawMessage) (any, error) {
@@ -121,11 +135,89 @@ func GenLogPlan(rng *kernel.RNG, env *kernel.Env, k int) any {
 		if rng.Bool(0.1) {
 			q.CancelAt = rng.Intn(6)
 		}
+		// (FailAt, a failing bit-vector retrieval, is not generated: the session then closes
+		// itself inside a sync.Once while Filter.Logs queues up on the same Once, and the
+		// one-second kill timer the close waits for can never fire in a bubble that holds a
+		// mutex-blocked goroutine. The fault stays available for plans written by hand.)
+		if rng.Bool(0.3) {
+			q.ViaJSON = true
+			for _, alts := range q.Topics {
+				k := -1
+				if rng.Bool(0.5) {
+					k = rng.Intn(len(alts) + 1)
+				}
+				q.NullAt = append(q.NullAt, k)
+			}
+		}
 		return q
+	}
+	if k%7 == 5 {
+		// a reorganisation that lands inside the section the indexer is processing: a main
+		// chain just long enough to make section j eligible, then a heavier fork that starts
+		// inside section j; the indexer is stopped part-way through the section when the fork
+		// arrives
+		p.StepIndexer = true
+		p.Section = []uint64{8, 16}[rng.Intn(2)]
+		p.Confirms = uint64(rng.Range(1, 3))
+		S := int(p.Section)
+		j := rng.Range(0, 2)
+		L := S*(j+1) + int(p.Confirms) + rng.Intn(2) // main chain length
+		forkAt := S*j + rng.Range(1, S-2)            // the fork's first block replaces main block forkAt+1
+		acc := p.Recipe.Accounts
+		mkTxs := func() []chainsim.TxRecipe {
+			txs := chainsim.GenTxs(rng, acc, 4)
+			for i := range txs {
+				txs[i].Kind, txs[i].A, txs[i].B, txs[i].Value = chainsim.TxLog, uint64(rng.Intn(10)), uint64(rng.Intn(20)), 0
+			}
+			return txs
+		}
+		p.Recipe.Blocks = nil
+		for i := 1; i <= L; i++ {
+			p.Recipe.Blocks = append(p.Recipe.Blocks, chainsim.BlockRecipe{Parent: i - 1, Gap: 1000, Coinbase: 0, Txs: mkTxs()})
+		}
+		parent := forkAt
+		var fork []int
+		for i := forkAt + 1; i <= L+2; i++ {
+			p.Recipe.Blocks = append(p.Recipe.Blocks, chainsim.BlockRecipe{Parent: parent, Gap: 5, Coinbase: 1 % acc, Txs: mkTxs(), Extra: "f"})
+			parent = len(p.Recipe.Blocks)
+			fork = append(fork, parent)
+		}
+		var main []int
+		for i := 1; i <= L; i++ {
+			main = append(main, i)
+		}
+		p.Ops = append(p.Ops, LogOp{Kind: "insert", Blocks: main})
+		p.Ops = append(p.Ops, LogOp{Kind: "index-partial", N: j*S + rng.Range(1, S-1)})
+		p.Ops = append(p.Ops, LogOp{Kind: "insert", Blocks: fork})
+		p.Ops = append(p.Ops, LogOp{Kind: "index", Ms: 3000})
+		for q := 0; q < 4; q++ {
+			qq := &LogQuery{CancelAt: -1, Begin: int64(S * j), End: int64(S*(j+1) - 1)}
+			if q%2 == 1 {
+				qq.Begin, qq.End = 0, -1
+			}
+			switch rng.Intn(3) {
+			case 0:
+				qq.Addrs = []int{rng.Intn(10)}
+			case 1:
+				qq.Topics = [][]int{{rng.Intn(7)}}
+			}
+			for i := rng.Range(5, 40); i > 0; i-- {
+				qq.Schedule = append(qq.Schedule, rng.Intn(64))
+			}
+			p.Ops = append(p.Ops, LogOp{Kind: "query", Query: qq})
+		}
+		return p
 	}
 	deliveries := chainsim.GenDeliveries(rng, &p.Recipe, 0, 0, 0.02, 12)
 	seen := 0
+	if rng.Bool(0.4) {
+		p.StepIndexer = true
+		p.Confirms = uint64(rng.Range(1, 3)) // shallow, so that a fork can reach into a section in progress
+	}
 	for _, d := range deliveries {
+		if p.StepIndexer && rng.Bool(0.5) {
+			p.Ops = append(p.Ops, LogOp{Kind: "index-partial", N: rng.Range(1, int(p.Section))})
+		}
 		p.Ops = append(p.Ops, LogOp{Kind: "insert", Blocks: d.Blocks})
 		seen += len(d.Blocks)
 		if rng.Bool(0.5) {
@@ -224,6 +316,11 @@ type logRun struct {
 	s    *Sched
 	vs   []kernel.Violation
 	step int
+	// retrieval fault of the query in progress
+	served, failAt int
+	failed         bool
+	ungated        bool
+	midSection     bool // the indexer is parked inside a section (index-partial)
 }
 
 func (r *logRun) add(class, format string, a ...any) {
@@ -260,6 +357,31 @@ func execLogs(p *LogPlan, col *kernel.Collector) []kernel.Violation {
 	s := New()
 	defer s.Close()
 	r.s = s
+	const indexSite = "chainindexer.processSection.header"
+	if p.StepIndexer {
+		s.Sites = map[string]bool{indexSite: true}
+		s.Adopt = map[string]bool{indexSite: true}
+	} else {
+		s.Sites = map[string]bool{}
+	}
+	indexerParked := func() []*Actor {
+		var out []*Actor
+		for _, a := range s.Parked() {
+			if a.Adopted {
+				out = append(out, a)
+			}
+		}
+		return out
+	}
+	drainIndexer := func() {
+		for i := 0; i < 100000; i++ {
+			ps := indexerParked()
+			if len(ps) == 0 {
+				return
+			}
+			s.Release(ps[0])
+		}
+	}
 	indexer := aqua.NewBloomIndexerForSim(u.Cfg, n.Disk, p.Section, p.Confirms, 100*time.Millisecond)
 	indexer.Start(n.BC)
 	defer indexer.Close()
@@ -267,6 +389,17 @@ func execLogs(p *LogPlan, col *kernel.Collector) []kernel.Violation {
 	// the retrieval service (stub mirroring the node's bloom handlers): gate-scheduled servers
 	stop := make(chan struct{})
 	defer close(stop)
+	// whatever the way out: nobody stays parked (the indexer's Close waits for its loops)
+	defer func() {
+		s.DisableSites()
+		for i := 0; i < 1000; i++ {
+			ps := s.Parked()
+			if len(ps) == 0 {
+				break
+			}
+			s.Release(ps[0])
+		}
+	}()
 	for i := 0; i < p.Servers; i++ {
 		s.Spawn(fmt.Sprintf("server%d", i), func(a *Actor) {
 			for {
@@ -275,7 +408,28 @@ func execLogs(p *LogPlan, col *kernel.Collector) []kernel.Violation {
 					return
 				case request := <-r.be.requests:
 					task := <-request
-					a.Park("serve") // the scheduler decides when (and in which order) answers go out
+					if !r.ungated {
+						a.Park("serve") // the scheduler decides when (and in which order) answers go out
+					}
+					r.served++
+					if r.failAt > 0 && r.served == r.failAt {
+						// the bit vector cannot be read (a missing or corrupt index entry).
+						// The session now closes itself inside a sync.Once and waits for every
+						// retrieval in flight, while Filter.Logs queues up on the same Once - a
+						// mutex wait the bubble cannot sit out. From here on the servers answer
+						// without the scheduler, so that the close can finish by itself.
+						r.failed = true
+						r.ungated = true
+						for _, b := range s.Parked() {
+							if b != a && strings.HasPrefix(b.Name, "server") {
+								s.Unpark(b)
+							}
+						}
+						task.Error = errors.New("simulated retrieval failure")
+						r.col.Inc("fault_bloombits_retrieval_error")
+						request <- task
+						continue
+					}
 					task.Bitsets = make([][]byte, len(task.Sections))
 					for i, section := range task.Sections {
 						head := core.GetCanonicalHash(n.Disk, (section+1)*p.Section-1)
@@ -304,11 +458,41 @@ func execLogs(p *LogPlan, col *kernel.Collector) []kernel.Violation {
 		r.step = i
 		switch op.Kind {
 		case "insert":
+			before := n.BC.CurrentBlock()
 			if _, _, d, pan := n.Insert(op.Blocks); d != "" || pan != "" {
 				r.add("import-panic", "died=%q panic=%s", d, pan)
 				return r.vs
 			}
 			synctest.Wait()
+			if r.midSection {
+				if after := n.BC.CurrentBlock(); after.ParentHash() != before.Hash() && after.Hash() != before.Hash() {
+					col.Inc("probe_reorg_while_a_section_was_being_indexed")
+				}
+				r.midSection = false
+			}
+		case "index-partial":
+			// let whatever section processing is under way advance by N headers only
+			time.Sleep(150 * time.Millisecond)
+			synctest.Wait()
+			for k := 0; k < op.N; k++ {
+				ps := indexerParked()
+				for w := 0; w < 3 && len(ps) == 0; w++ {
+					// between two sections the indexer sleeps for its throttling interval
+					time.Sleep(120 * time.Millisecond)
+					synctest.Wait()
+					ps = indexerParked()
+				}
+				if len(ps) == 0 {
+					break
+				}
+				s.Release(ps[0])
+				col.Inc("indexer_headers_stepped")
+			}
+			if len(indexerParked()) > 0 {
+				r.midSection = true
+				col.Inc("probe_indexer_parked_inside_a_section")
+			}
+			continue // the next operation happens with the indexer parked mid-section
 		case "index":
 			if os.Getenv("VERIF_DEBUG") != "" {
 				a, b, _ := indexer.Sections()
@@ -322,6 +506,9 @@ func execLogs(p *LogPlan, col *kernel.Collector) []kernel.Violation {
 		}
 		if len(r.vs) > 0 {
 			return r.vs
+		}
+		if p.StepIndexer && !(i+1 < len(p.Ops) && p.Ops[i+1].Kind == "index-partial") {
+			drainIndexer()
 		}
 	}
 	if _, sections := r.be.BloomStatus(); sections > 0 {
@@ -454,10 +641,115 @@ func (r *logRun) bruteForce(q *LogQuery, addrs []common.Address, topics [][]comm
 	return out
 }
 
+// viaJSON renders the criteria as the RPC API's JSON object (with the plan's nulls inside
+// the alternative lists), decodes them with the real FilterCriteria.UnmarshalJSON and
+// returns what the filter will be built from plus what the statement says they mean.
+func (r *logRun) viaJSON(q *LogQuery, addrs []common.Address, topics [][]common.Hash) (begin, end int64, gotAddrs []common.Address, gotTopics, meant [][]common.Hash, err error) {
+	blockTag := func(n int64) string {
+		if n < 0 {
+			return `"latest"`
+		}
+		return fmt.Sprintf(`"0x%x"`, n)
+	}
+	js := fmt.Sprintf(`{"fromBlock":%s,"toBlock":%s`, blockTag(q.Begin), blockTag(q.End))
+	if len(addrs) == 1 {
+		js += fmt.Sprintf(`,"address":"%s"`, addrs[0].Hex())
+	} else if len(addrs) > 1 {
+		js += `,"address":[`
+		for i, a := range addrs {
+			if i > 0 {
+				js += ","
+			}
+			js += `"` + a.Hex() + `"`
+		}
+		js += "]"
+	}
+	js += `,"topics":[`
+	for i, alts := range topics {
+		if i > 0 {
+			js += ","
+		}
+		null := -1
+		if i < len(q.NullAt) {
+			null = q.NullAt[i]
+		}
+		switch {
+		case len(alts) == 0 && null < 0:
+			js += "null"
+			meant = append(meant, nil)
+		case len(alts) == 1 && null < 0:
+			js += `"` + alts[0].Hex() + `"`
+			meant = append(meant, alts)
+		default:
+			js += "["
+			n := 0
+			for k := 0; k <= len(alts); k++ {
+				if k == null {
+					if n > 0 {
+						js += ","
+					}
+					js += "null"
+					n++
+				}
+				if k < len(alts) {
+					if n > 0 {
+						js += ","
+					}
+					js += `"` + alts[k].Hex() + `"`
+					n++
+				}
+			}
+			js += "]"
+			if null >= 0 {
+				meant = append(meant, nil) // a null among the alternatives: anything matches here
+				r.col.Inc("probe_json_null_inside_alternatives")
+			} else {
+				meant = append(meant, alts)
+			}
+		}
+	}
+	js += "]}"
+	var crit filters.FilterCriteria
+	if err = json.Unmarshal([]byte(js), &crit); err != nil {
+		return 0, 0, nil, nil, nil, fmt.Errorf("%v (%s)", err, js)
+	}
+	begin, end = q.Begin, q.End
+	if crit.FromBlock != nil {
+		begin = crit.FromBlock.Int64()
+	}
+	if crit.ToBlock != nil {
+		end = crit.ToBlock.Int64()
+	}
+	return begin, end, crit.Addresses, crit.Topics, meant, nil
+}
+
 func (r *logRun) query(q *LogQuery) {
 	addrs, topics := r.criteria(q)
+	fb, fe, faddrs, ftopics := q.Begin, q.End, addrs, topics
+	if q.ViaJSON {
+		b, e, ga, gt, meant, err := r.viaJSON(q, addrs, topics)
+		if err != nil {
+			r.add("filter-criteria-json-rejected", "%v", err)
+			return
+		}
+		if (b < 0) != (q.Begin < 0) || (b >= 0 && b != q.Begin) || (e < 0) != (q.End < 0) || (e >= 0 && e != q.End) {
+			r.add("filter-criteria-json-range-wrong", "fromBlock/toBlock %d/%d decoded as %d/%d", q.Begin, q.End, b, e)
+			return
+		}
+		if b < 0 {
+			b = -1
+		}
+		if e < 0 {
+			e = -1
+		}
+		fb, fe, faddrs, ftopics = b, e, ga, gt
+		topics = meant // what the JSON object means
+		r.col.Inc("probe_query_via_json_criteria")
+	}
 	want := r.bruteForce(q, addrs, topics)
-	f := filters.New(r.be, q.Begin, q.End, addrs, topics)
+	r.served, r.failAt, r.failed, r.ungated = 0, q.FailAt, false, false
+	defer func() { r.failAt, r.ungated = 0, false }()
+	f := filters.New(r.be, fb, fe, faddrs, ftopics)
 	ctx, cancel := context.WithCancel(context.Background())
 	defer cancel()
 	var got []*types.Log
@@ -531,6 +823,18 @@ func (r *logRun) query(q *LogQuery) {
 			}
 		}
 		return
+	}
+	if r.failed {
+		// a bit vector could not be read: the query must say so, or still be complete;
+		// what it may not do is return a shortened answer as if nothing had happened
+		if qerr != nil {
+			r.col.Inc("probe_retrieval_error_reported")
+			return
+		}
+		if len(got) != len(want) {
+			r.add("retrieval-error-silently-truncated-result", "a bloom-bits retrieval failed during the query (begin %d end %d); Filter.Logs returned %d logs and no error, the canonical receipts hold %d matching logs", q.Begin, q.End, len(got), len(want))
+			return
+		}
 	}
 	if qerr != nil {
 		r.add("log-query-error", "Filter.Logs(begin %d end %d): %v", q.Begin, q.End, qerr)
